@@ -28,6 +28,6 @@ def conditions(tier):
         cs.append(_l.line1(kind, head, maxlen=2 if q else 3, maxind=1, T=600))
     # element structure at line-kind level: the REAL parser + REAL AstBuilder from every grammar configuration; the AST must contain
     # exactly the rules / backgrounds / scenarios / examples / steps / rows / doc strings / tags / comments the specification-level parser opened
-    cs += _p.pdrv_conditions(k_all=1 if q else 2, k_tags=1 if q else 2, stop_too=False)
+    cs += _p.pdrv_conditions(k_all=1, k_tags=1, stop_too=False) if q else _p.pdrv_conditions(k_all=2, k_tags=2, stop_too=False)[::2]
     cs.append(Cond(_d.M, "twin_never_parses", {"shape": "steps"}, T=120, expect="cex"))
     return cs
